@@ -124,7 +124,8 @@ def make_fn(sg, occs):
     def fn(e):
         occ = e.pick(occs)
         n = sum(len(S.orbit(sg, l)) for l, _ in occ)
-        orig_order = None if n < 2 else e.pick([None, list(range(n))[::-1], "supercell", "interleaved"] + (["after-other"] if len(occ) == 1 else []))
+        # supercell originals: both listings for occupations of <= 2 orbits, the interleaved one only for 3 orbits (thorough tier)
+        orig_order = None if n < 2 else e.pick([None, list(range(n))[::-1]] + (["supercell"] if len(occ) <= 2 else []) + ["interleaved"] + (["after-other"] if len(occ) == 1 else []))
         sup = {"supercell": True, "interleaved": "interleaved"}.get(orig_order if isinstance(orig_order, str) else None, False)
         reuse = orig_order == "after-other"
         orig_order = None if (sup or reuse) else orig_order
@@ -237,7 +238,7 @@ def orbit_bound(sg, tier):
 def run_group(arg):
     sg, tier = arg
     occs = S.occupations(sg, orbit_bound(sg, tier), S.ELEMENTS)
-    return sg, explore(make_fn(sg, occs), f"H12:sg{sg}", workers=1, timeout_ms=20000, budget_s=3000, precheck=True, validate_every=10), len(occs)
+    return sg, explore(make_fn(sg, occs), f"H12:sg{sg}", workers=1, timeout_ms=20000 if tier == "quick" else 60000, budget_s=3000 if tier == "quick" else 9000, precheck=True, validate_every=10), len(occs)
 
 
 def main(tier, seed, only=None):
